@@ -93,6 +93,7 @@ var kindSpecs = []kindSpec{
 	{"delete-form", curatedFilenames, formEncs, []string{"POST"}, []string{"op"}, []string{recGroup, autoGroup, recGroup + "/sub"}, 8},
 	{"join-username", curatedUsernames, []string{"json"}, []string{""}, []string{""}, []string{pubGroup}, 1},
 	{"join-token", curatedTokens, []string{"json"}, []string{""}, []string{""}, []string{pubGroup}, 1},
+	{"join-token-username", curatedUsernames, []string{"stateful", "jwt"}, []string{""}, []string{""}, []string{pubGroup}, 2},
 	{"record-username", curatedUsernames, []string{"direct"}, []string{""}, []string{""}, []string{recGroup, autoGroup}, 6},
 	{"lib-group", curatedNames, []string{"direct"}, []string{"get", "tag", "users", "update", "delete"}, []string{""}, []string{""}, 10},
 }
@@ -138,6 +139,9 @@ func benignInputs() []input {
 		{Kind: "join-username", S: "", Enc: "json", Group: pubGroup, Expect: "join"},
 		{Kind: "join-username", S: "a/../b", Enc: "json", Group: pubGroup, Expect: "fail"},
 		{Kind: "join-token", S: "no-such-token", Enc: "json", Group: pubGroup, Expect: "fail"},
+		{Kind: "join-token-username", S: "alice", Enc: "stateful", Group: pubGroup, Expect: "join"},
+		{Kind: "join-token-username", S: "Alice c/o Bob", Enc: "jwt", Group: pubGroup, Expect: "join"},
+		{Kind: "join-token-username", S: "a/../b", Enc: "jwt", Group: pubGroup, Expect: "fail"},
 		{Kind: "api-group", S: pubGroup, Enc: "raw", Method: "GET", Auth: "admin", Expect: "200:FIXTURE-pub"},
 		{Kind: "api-group", S: pubGroup, Enc: "raw", Method: "GET", Auth: "none", Expect: "401"},
 		{Kind: "api-group", S: pubGroup, Enc: "raw", Method: "GET", Auth: "op", Expect: "401"},
